@@ -4,6 +4,7 @@ from __future__ import annotations
 import ast
 import re
 
+from . import generic
 from sa.absint import Evaluator, all_effects
 from sa.index import AnalysisError
 from sa.terms import App, Const, Ref, Sym, cases, cat_parts, subterms
@@ -175,8 +176,7 @@ def seqnum_rules(ctx, en, members):
     fi = repo.func("ncs.build", "append_default_version_values")
     fq = ctx.fq(fi)
     outs = [o for o in Evaluator(repo, inline_depth=1).outcomes(fi) if o.kind == "return"]
-    if len(outs) != 1:
-        raise AnalysisError(f"{fq}: expected a single normal outcome")
+    outs = generic.sole_outcome(ctx, outs, f"{fq}: expected a single normal outcome")
     stores = {}
     for e in all_effects(outs[0].effects):
         if isinstance(e, App) and e.op == "eff:store" and isinstance(e.args[1], Const):
